@@ -636,10 +636,20 @@ def Tok.isOp : Tok → Bool
   | .operator _ => true
   | _ => false
 
+def Tok.isScal : Tok → Bool
+  | .unquoted _ | .quoted _ => true
+  | _ => false
+
+/-- tokens that may stand alone in a value list (`ArrayReader::values()` steps over them one by
+one): scalars, parameter tokens, operators and the `MixedContainer` -/
+def Tok.isItem : Tok → Bool
+  | .unquoted _ | .quoted _ | .parameter _ | .undefParameter _ | .operator _ | .mixedContainer => true
+  | _ => false
+
 inductive GK | val | items | body (hasM : Bool)
 
 inductive Gr : GK → List Tok → Nat → Prop
-  | scal {t : Tok} {b : Nat} : t.isKey = true → Gr .val [t] b
+  | scal {t : Tok} {b : Nat} : t.isScal = true → Gr .val [t] b
   | arr {mid : List Tok} {b : Nat} {m : Bool} : Gr .items mid (b + 1) →
       Gr .val (.array (b + 1 + mid.length) m :: (mid ++ [.endTok b])) b
   | obj {mid : List Tok} {b : Nat} {m x : Bool} : Gr (.body x) mid (b + 1) → (m = true → x = true) →
@@ -648,7 +658,7 @@ inductive Gr : GK → List Tok → Nat → Prop
       Gr .val (.header h :: t :: r) b
   | inil {b : Nat} : Gr .items [] b
   | ival {v rest : List Tok} {b : Nat} : Gr .val v b → Gr .items rest (b + v.length) → Gr .items (v ++ rest) b
-  | itok {t : Tok} {rest : List Tok} {b : Nat} : t.isStartTok = false → Gr .items rest (b + 1) →
+  | itok {t : Tok} {rest : List Tok} {b : Nat} : t.isItem = true → Gr .items rest (b + 1) →
       Gr .items (t :: rest) b
   | bnil {b : Nat} : Gr (.body false) [] b
   | bmixed {rest : List Tok} {b : Nat} : Gr .items rest (b + 1) → Gr (.body true) (.mixedContainer :: rest) b
@@ -676,7 +686,7 @@ theorem mid_get (A ts B : List Tok) (j : Nat) (hj : j < ts.length) :
 theorem Gr.val_head {k : GK} {v : List Tok} {b : Nat} (h : Gr k v b) (hk : k = .val) :
     ∃ t r, v = t :: r ∧ t.isOp = false := by
   cases h <;> simp at hk
-  · next t hkey => exact ⟨t, [], rfl, by cases t <;> simp [Tok.isKey] at hkey <;> rfl⟩
+  · next t hkey => exact ⟨t, [], rfl, by cases t <;> simp [Tok.isScal] at hkey <;> rfl⟩
   · exact ⟨_, _, rfl, rfl⟩
   · exact ⟨_, _, rfl, rfl⟩
   · exact ⟨_, _, rfl, rfl⟩
@@ -698,9 +708,9 @@ theorem gr_sound {k : GK} {ts : List Tok} {b : Nat} (h : Gr k ts b) :
     refine ⟨?_, ?_⟩
     · intro i e m h1 h2 hi
       have : i = b := by simp at h2; omega
-      subst this; rw [h0] at hi; simp at hi; subst hi; simp [Tok.isKey] at hkey
+      subst this; rw [h0] at hi; simp at hi; subst hi; simp [Tok.isScal] at hkey
     · intro e he
-      cases t <;> simp [Tok.isKey] at hkey <;> simp [Dom.valueNext, h0, toDomTok]
+      cases t <;> simp [Tok.isScal] at hkey <;> simp [Dom.valueNext, h0, toDomTok]
   | @arr mid b m hmid ih =>
     intro T A B hT hb
     have hlen : (Tok.array (b + 1 + mid.length) m :: (mid ++ [.endTok b])).length = mid.length + 2 := by simp
@@ -789,7 +799,7 @@ theorem gr_sound {k : GK} {ts : List Tok} {b : Nat} (h : Gr k ts b) :
     refine ⟨?_, trivial⟩
     intro i e m h1 h2 hi
     by_cases hib : i = b
-    · subst hib; rw [h0] at hi; simp at hi; subst hi; simp [Tok.isStartTok] at ht
+    · subst hib; rw [h0] at hi; simp at hi; subst hi; simp [Tok.isItem] at ht
     · exact ihO i e m (by omega) (by simp at h2; omega) hi
   | @bnil b =>
     intro T A B hT hb
@@ -923,7 +933,10 @@ theorem Gr.body_append {k : GK} {fs : List Tok} {b : Nat} (h : Gr k fs b) :
 theorem Scal.tok_isKey (s : Scal) (a : Bytes) : (s.tok a).isKey = true := by
   unfold Scal.tok; split <;> rfl
 
-theorem Scal.tok_notStart (s : Scal) (a : Bytes) : (s.tok a).isStartTok = false := by
+theorem Scal.tok_isItem (s : Scal) (a : Bytes) : (s.tok a).isItem = true := by
+  unfold Scal.tok; split <;> rfl
+
+theorem Scal.tok_isScal (s : Scal) (a : Bytes) : (s.tok a).isScal = true := by
   unfold Scal.tok; split <;> rfl
 
 theorem paramTok_isKey (b : Bool) (sl : Slice) : (paramTok b sl).isKey = true := by
@@ -936,7 +949,7 @@ theorem gr_elems : ∀ (es : List (Bytes × Scal)) (a : Bytes) (b : Nat), Gr .it
   | [], _, _ => Gr.inil
   | (_, s) :: r, a, b => by
     simp only [elemToks]
-    exact Gr.itok (Scal.tok_notStart _ _) (gr_elems r a (b + 1))
+    exact Gr.itok (Scal.tok_isItem _ _) (gr_elems r a (b + 1))
 
 theorem jtapeV_head : ∀ (v : JVal) (b : Nat) (a : Bytes), v.isBraced → JValidV v a →
     ∃ t r, jtapeV v b a = t :: r ∧ t.isStartTok = true
@@ -986,13 +999,13 @@ theorem Gr.hdrShape {k t : Tok} {ops v r rest : List Tok} {b b1 b2 : Nat} {x : B
   have hH := Gr.hdr (h := h) hv ht
   exact (Gr.bfield hk hops hH (hr.cast rfl (by simp; omega))).cast (by simp) rfl
 
-theorem Gr.itokShape {t : Tok} {rest : List Tok} {b b1 : Nat} (ht : t.isStartTok = false)
+theorem Gr.itokShape {t : Tok} {rest : List Tok} {b b1 : Nat} (ht : t.isItem = true)
     (hr : Gr .items rest b1) (e1 : b1 = b + 1) : Gr .items ([t] ++ rest) b := by
   subst e1; exact (Gr.itok ht hr).cast (by simp) rfl
 
 theorem Gr.mixedShape {k t : Tok} {ops v rest es : List Tok} {b b1 b2 b3 : Nat} (hk : k.isKey = true)
     (hops : ops = [] ∨ ∃ o, ops = [.operator o]) (hv : Gr .val v b1) (hr : Gr (.body false) rest b2)
-    (ht : t.isStartTok = false) (hes : Gr .items es b3)
+    (ht : t.isItem = true) (hes : Gr .items es b3)
     (e1 : b1 = b + 1 + ops.length) (e2 : b2 = b + 1 + ops.length + v.length)
     (e3 : b3 = b + 1 + ops.length + v.length + rest.length + 1 + 1) :
     Gr (.body true) ([k] ++ ops ++ v ++ rest ++ [.mixedContainer, t] ++ es) b := by
@@ -1024,7 +1037,7 @@ theorem Gr.paramObjShape {p : Tok} {s : Slice} {ops v inner rest : List Tok} {b 
 
 mutual
 theorem grV : ∀ (v : JVal) (b : Nat) (a : Bytes), JValidV v a → Gr .val (jtapeV v b a) b
-  | .scal _ s, b, a, _ => by simp only [jtapeV]; exact Gr.scal (Scal.tok_isKey _ _)
+  | .scal _ s, b, a, _ => by simp only [jtapeV]; exact Gr.scal (Scal.tok_isScal _ _)
   | .empty _ _, b, a, _ => by
     simp only [jtapeV]
     exact (Gr.arr (mid := []) (m := false) Gr.inil).cast (by simp) rfl
@@ -1042,7 +1055,7 @@ theorem grV : ∀ (v : JVal) (b : Nat) (a : Bytes), JValidV v a → Gr .val (jta
     obtain ⟨_, _, _, _, _, _, h7⟩ := hv
     have hVs := grVs rest (b + 1 + 1) _ h7
     simp only [jtapeV]
-    refine Gr.arrShape (Gr.itokShape (Scal.tok_notStart _ _) hVs rfl) ?_
+    refine Gr.arrShape (Gr.itokShape (Scal.tok_isItem _ _) hVs rfl) ?_
     simp only [List.length_cons, List.length_append, List.length_nil, len_jtapeVs]; omega
   | .arrC _ first rest gc, b, a, hv => by
     simp only [JValidV] at hv
@@ -1063,7 +1076,7 @@ theorem grV : ∀ (v : JVal) (b : Nat) (a : Bytes), JValidV v a → Gr .val (jta
     have hF := grF rest (b + 1 + (1 + o.toks.length + jcntV v)) _ h9
     have hE := gr_elems elems (gc ++ 125 :: a) (b + 1 + (1 + o.toks.length + jcntV v) + jcntF rest + 1 + 1)
     simp only [jtapeV]
-    refine Gr.objShape (Gr.mixedShape (Scal.tok_isKey _ _) (Op.toks_ok o) hV hF (Scal.tok_notStart _ _) hE
+    refine Gr.objShape (Gr.mixedShape (Scal.tok_isKey _ _) (Op.toks_ok o) hV hF (Scal.tok_isItem _ _) hE
       rfl ?_ ?_) (by simp) ?_
     · rw [len_jtapeV]; omega
     · rw [len_jtapeV, len_jtapeF]; omega
@@ -1174,7 +1187,7 @@ theorem Gr.items_append {k : GK} {xs : List Tok} {b : Nat} (h : Gr k xs b) :
   | _ => intro hk; simp at hk
 
 theorem Gr.items_snoc_tok {xs : List Tok} {b : Nat} {t : Tok} (h : Gr .items xs b)
-    (ht : t.isStartTok = false) : Gr .items (xs ++ [t]) b :=
+    (ht : t.isItem = true) : Gr .items (xs ++ [t]) b :=
   h.items_append rfl _ (Gr.itok ht Gr.inil)
 
 theorem Gr.items_snoc_val {xs v : List Tok} {b : Nat} (h : Gr .items xs b)
@@ -1182,7 +1195,7 @@ theorem Gr.items_snoc_val {xs v : List Tok} {b : Nat} (h : Gr .items xs b)
   h.items_append rfl _ ((Gr.ival hv Gr.inil).cast (by simp) rfl)
 
 theorem Gr.val_last {k : GK} {v : List Tok} {b : Nat} (h : Gr k v b) :
-    k = .val → (∃ t, v = [t] ∧ t.isKey = true) ∨ (∃ v' j, v = v' ++ [.endTok j]) := by
+    k = .val → (∃ t, v = [t] ∧ t.isScal = true) ∨ (∃ v' j, v = v' ++ [.endTok j]) := by
   induction h with
   | @scal t b hk => intro _; exact .inl ⟨t, rfl, hk⟩
   | @arr mid b m _ _ => intro _; exact .inr ⟨.array (b + 1 + mid.length) m :: mid, b, by simp⟩
@@ -1191,37 +1204,50 @@ theorem Gr.val_last {k : GK} {v : List Tok} {b : Nat} (h : Gr k v b) :
     intro _
     rcases ih rfl with ⟨t', h1, h2⟩ | ⟨v', j, h1⟩
     · simp at h1; obtain ⟨rfl, _⟩ := h1
-      cases t <;> simp [Tok.isStartTok] at hst <;> simp [Tok.isKey] at h2
+      cases t <;> simp [Tok.isStartTok] at hst <;> simp [Tok.isScal] at h2
     · exact .inr ⟨.header hs :: v', j, by simp [h1]⟩
   | _ => intro hk; simp at hk
 
-theorem Gr.items_unsnoc {k : GK} {ts : List Tok} {b : Nat} (h : Gr k ts b) :
-    k = .items → ∀ xs l, ts = xs ++ [l] → l.isEndTok = false → Gr .items xs b := by
+theorem isScal_isItem {t : Tok} (h : t.isScal = true) : t.isItem = true := by
+  cases t <;> simp [Tok.isScal] at h <;> rfl
+
+theorem Gr.items_unsnoc' {k : GK} {ts : List Tok} {b : Nat} (h : Gr k ts b) :
+    k = .items → ∀ xs l, ts = xs ++ [l] → l.isEndTok = false → Gr .items xs b ∧ l.isItem = true := by
   induction h with
   | inil => intro _ xs l h; simp at h
   | @itok t rest b ht hr ih =>
     intro _ xs l hx hl
     cases xs with
-    | nil => exact Gr.inil
+    | nil =>
+      simp at hx; obtain ⟨rfl, _⟩ := hx
+      exact ⟨Gr.inil, ht⟩
     | cons x xs' =>
       simp at hx; obtain ⟨rfl, hx⟩ := hx
-      exact Gr.itok ht (ih rfl xs' l hx hl)
+      obtain ⟨h1, h2⟩ := ih rfl xs' l hx hl
+      exact ⟨Gr.itok ht h1, h2⟩
   | @ival v rest b hv hr _ ihr =>
     intro _ xs l hx hl
     rcases List.eq_nil_or_concat rest with rfl | ⟨r', l', rfl⟩
     · simp at hx
-      rcases hv.val_last rfl with ⟨t, h1, _⟩ | ⟨v', j, h1⟩
+      rcases hv.val_last rfl with ⟨t, h1, h2⟩ | ⟨v', j, h1⟩
       · rw [h1] at hx
         cases xs with
-        | nil => exact Gr.inil
+        | nil =>
+          simp at hx; subst hx
+          exact ⟨Gr.inil, isScal_isItem h2⟩
         | cons x xs' => simp at hx
       · rw [h1] at hx
         obtain ⟨_, rfl⟩ := snoc_inj hx
         simp [Tok.isEndTok] at hl
     · simp only [List.concat_eq_append, ← List.append_assoc] at hx
       obtain ⟨rfl, rfl⟩ := snoc_inj hx
-      exact Gr.ival hv (ihr rfl r' l' (by simp) hl)
+      obtain ⟨h1, h2⟩ := ihr rfl r' l' (by simp) hl
+      exact ⟨Gr.ival hv h1, h2⟩
   | _ => intro hk; simp at hk
+
+theorem Gr.items_unsnoc {k : GK} {ts : List Tok} {b : Nat} (h : Gr k ts b)
+    (hk : k = .items) (xs : List Tok) (l : Tok) (hx : ts = xs ++ [l]) (hl : l.isEndTok = false) :
+    Gr .items xs b := (h.items_unsnoc' hk xs l hx hl).1
 
 def OpsOk (ops : List Tok) : Prop := ops = [] ∨ ∃ o, ops = [.operator o]
 
@@ -1231,7 +1257,7 @@ def Stopped (pre : List Tok) (base : Nat) : Prop :=
     Gr .items its (base + done.length + 1)
 
 theorem Stopped.snoc_tok {pre : List Tok} {b : Nat} {t : Tok} (h : Stopped pre b)
-    (ht : t.isStartTok = false) : Stopped (pre ++ [t]) b := by
+    (ht : t.isItem = true) : Stopped (pre ++ [t]) b := by
   obtain ⟨done, its, rfl, hd, hi⟩ := h
   exact ⟨done, its ++ [t], by simp, hd, hi.items_snoc_tok ht⟩
 
@@ -1240,8 +1266,8 @@ theorem Stopped.snoc_val {pre v : List Tok} {b : Nat} (h : Stopped pre b)
   obtain ⟨done, its, rfl, hd, hi⟩ := h
   exact ⟨done, its ++ v, by simp, hd, hi.items_snoc_val (hv.cast rfl (by simp; omega))⟩
 
-theorem Stopped.unsnoc {xs : List Tok} {l : Tok} {b : Nat} (h : Stopped (xs ++ [l]) b)
-    (hl : l.isEndTok = false) (hm : l ≠ .mixedContainer) : Stopped xs b := by
+theorem Stopped.unsnoc' {xs : List Tok} {l : Tok} {b : Nat} (h : Stopped (xs ++ [l]) b)
+    (hl : l.isEndTok = false) (hm : l ≠ .mixedContainer) : Stopped xs b ∧ l.isItem = true := by
   obtain ⟨done, its, he, hd, hi⟩ := h
   rcases List.eq_nil_or_concat its with rfl | ⟨i', l', rfl⟩
   · have : xs ++ [l] = done ++ [.mixedContainer] := by simpa using he
@@ -1249,7 +1275,11 @@ theorem Stopped.unsnoc {xs : List Tok} {l : Tok} {b : Nat} (h : Stopped (xs ++ [
   · simp only [List.concat_eq_append] at he hi
     have : xs ++ [l] = (done ++ .mixedContainer :: i') ++ [l'] := by simpa using he
     obtain ⟨rfl, rfl⟩ := snoc_inj this
-    exact ⟨done, i', rfl, hd, hi.items_unsnoc rfl i' l rfl hl⟩
+    obtain ⟨h1, h2⟩ := hi.items_unsnoc' rfl i' l rfl hl
+    exact ⟨⟨done, i', rfl, hd, h1⟩, h2⟩
+
+theorem Stopped.unsnoc {xs : List Tok} {l : Tok} {b : Nat} (h : Stopped (xs ++ [l]) b)
+    (hl : l.isEndTok = false) (hm : l ≠ .mixedContainer) : Stopped xs b := (h.unsnoc' hl hm).1
 
 theorem Stopped.ofBody {done : List Tok} {b : Nat} (hd : Gr (.body false) done b) :
     Stopped (done ++ [.mixedContainer]) b := ⟨done, [], rfl, hd, Gr.inil⟩
@@ -1289,6 +1319,11 @@ def Tok.isObj : Tok → Bool
 def Loose (o : Bool) (pre : List Tok) (base : Nat) : Prop :=
   (o = false ∧ Gr .items pre base) ∨ (o = true ∧ Stopped pre base)
 
+/-- a lenient level in front of a placeholder / open container: possibly with a pending `Header`
+(Key state of an object level that has reached its `MixedContainer` and reads `key = hdr {`) -/
+def LooseH (o : Bool) (pre : List Tok) (base : Nat) : Prop :=
+  Loose o pre base ∨ (o = true ∧ ∃ xs h, pre = xs ++ [.header h] ∧ Stopped xs base)
+
 /-- what the last complete field looks like in Key state -/
 def KeyTail (done lastf : List Tok) : Prop :=
   LastF lastf ∧ (lastf = [] → ∀ h, done.getLast? ≠ some (.unquoted h))
@@ -1308,21 +1343,21 @@ def BStrict (s : PState) (body : List Tok) (base : Nat) : Prop :=
 def BLoose (s : PState) (o : Bool) (body : List Tok) (base : Nat) : Prop :=
   match s with
   | .key => o = true ∧ Stopped body base
-  | .kvs => o = true ∧ ∃ pre k, body = pre ++ [k] ∧ k.isStartTok = false ∧ Stopped pre base
+  | .kvs => o = true ∧ ∃ pre k, body = pre ++ [k] ∧ k.isItem = true ∧ Stopped pre base
   | .objectValue => o = true ∧ Stopped body base
   | .arrayValue => Loose o body base
-  | .parseOpen => Loose o body base
+  | .parseOpen => LooseH o body base
 
 /-- what stands in front of an open container inside its parent level -/
 def Pend (o : Bool) (pre : List Tok) (base : Nat) : Prop :=
-  Loose o pre base ∨ (o = true ∧ BStrict .parseOpen pre base)
+  LooseH o pre base ∨ (o = true ∧ BStrict .parseOpen pre base)
 
 /-- `Lv T p o`: `T` ends with the token (index `p`, kind `o` = is an object) of the innermost open
 container, or is empty (top level, `p = 0`, an object level) -/
 inductive Lv : List Tok → Nat → Bool → Prop
   | root : Lv [] 0 true
   | nest {T pre : List Tok} {p : Nat} {o : Bool} {c : Tok} : Lv T p o → Pend o pre T.length →
-      (T.getLast?.map Tok.flag = some true → Loose o pre T.length) →
+      (T.getLast?.map Tok.flag = some true → LooseH o pre T.length) →
       c.isStartTok = true → endOf (some c) = p → T ++ pre ≠ [] →
       Lv (T ++ pre ++ [c]) (T.length + pre.length) c.isObj
 
@@ -1358,14 +1393,17 @@ theorem Lv.kind {T : List Tok} {p : Nat} {o : Bool} (h : Lv T p o) :
 `V = c' :: (mid ++ [End j])` is that container. -/
 theorem G.ret {T pre mid : List Tok} {p' j : Nat} {o' : Bool} {c' : Tok}
     (hL : Lv T p' o') (hP : Pend o' pre T.length)
-    (hF : T.getLast?.map Tok.flag = some true → Loose o' pre T.length)
+    (hF : T.getLast?.map Tok.flag = some true → LooseH o' pre T.length)
     (hc' : c'.isStartTok = true)
     (hV : Gr .val (c' :: (mid ++ [.endTok j])) (T.length + pre.length)) :
     G (T ++ pre ++ c' :: (mid ++ [.endTok j])) p' (closeOf T).2 (closeOf T).1 := by
-  have hLoose : Loose o' pre T.length → Loose o' (pre ++ c' :: (mid ++ [.endTok j])) T.length := by
-    rintro (⟨ho, hi⟩ | ⟨ho, hs⟩)
+  have hLoose : LooseH o' pre T.length → Loose o' (pre ++ c' :: (mid ++ [.endTok j])) T.length := by
+    rintro ((⟨ho, hi⟩ | ⟨ho, hs⟩) | ⟨ho, xs, h, rfl, hs⟩)
     · exact .inl ⟨ho, hi.items_snoc_val hV⟩
     · exact .inr ⟨ho, hs.snoc_val hV⟩
+    · have := hs.snoc_val (v := .header h :: c' :: (mid ++ [.endTok j]))
+        (Gr.hdr (hV.cast rfl (by simp; omega)) hc')
+      exact .inr ⟨ho, by simpa using this⟩
   have hlast : ∀ h, (pre ++ c' :: (mid ++ [.endTok j])).getLast? ≠ some (.unquoted h) := by
     intro h
     have : pre ++ c' :: (mid ++ [.endTok j]) = (pre ++ c' :: mid) ++ [.endTok j] := by simp
@@ -1406,7 +1444,7 @@ theorem G.ret {T pre mid : List Tok} {p' j : Nat} {o' : Bool} {c' : Tok}
       · next e m =>
         -- an array level
         simp only [Tok.isObj] at hco; subst hco
-        have hl : Loose false pre T.length := by
+        have hl : LooseH false pre T.length := by
           rcases hP with hl | ⟨h, _⟩
           · exact hl
           · simp at h
@@ -1416,7 +1454,7 @@ theorem G.ret {T pre mid : List Tok} {p' j : Nat} {o' : Bool} {c' : Tok}
         simp only [Tok.isObj] at hco; subst hco
         cases m with
         | true =>
-          have hl : Loose true pre T.length := hF (by simp [hc, Tok.flag])
+          have hl : LooseH true pre T.length := hF (by simp [hc, Tok.flag])
           simp only [closeState, if_true, BLoose, BStrict]
           exact ⟨.inl (hLoose hl), fun _ => hLoose hl, fun _ => hLoose hl, by simp⟩
         | false =>
@@ -1474,12 +1512,25 @@ theorem lexValue_tok' {tape tape' : List Tok} {d rest : Bytes} (h : lexValue tap
         split at h <;> simp at h
         exact ⟨_, h.1.symm, .inl ⟨_, rfl⟩⟩
 
+theorem parseScalarTok_tok' {tape tape' : List Tok} {d rest : Bytes}
+    (h : parseScalarTok tape d = .ok (tape', rest)) : ∃ t, tape' = tape ++ [t] ∧ t.isItem = true := by
+  unfold parseScalarTok at h
+  split at h <;> simp at h
+  exact ⟨_, h.1.symm, rfl⟩
+
 theorem scal_isKey {t : Tok} (h : (∃ s, t = .unquoted s) ∨ (∃ s, t = .quoted s)) :
     t.isKey = true ∧ t.isStartTok = false ∧ t.isEndTok = false ∧ t ≠ .mixedContainer := by
   rcases h with ⟨s, rfl⟩ | ⟨s, rfl⟩ <;> simp [Tok.isKey, Tok.isStartTok, Tok.isEndTok]
 
 theorem isKey_notStart {t : Tok} (h : t.isKey = true) : t.isStartTok = false := by
   cases t <;> simp [Tok.isKey] at h <;> rfl
+
+theorem isKey_isItem {t : Tok} (h : t.isKey = true) : t.isItem = true := by
+  cases t <;> simp [Tok.isKey] at h <;> rfl
+
+theorem scal_isItem {t : Tok} (h : (∃ s, t = .unquoted s) ∨ (∃ s, t = .quoted s)) :
+    t.isItem = true ∧ t.isScal = true := by
+  rcases h with ⟨s, rfl⟩ | ⟨s, rfl⟩ <;> exact ⟨rfl, rfl⟩
 
 theorem stepKvs_g {st st' : St} {data d' : Bytes} (hG : GInv st) (hs : st.state = .kvs)
     (h : stepKvs st data = .cont st' d') : GInv st' := by
@@ -1546,7 +1597,7 @@ theorem stepKvs_g {st st' : St} {data d' : Bytes} (hG : GInv st) (hs : st.state 
             exact .inr ⟨ho, by simpa using this⟩
           · rintro ho ⟨done, k, he, hd, hk⟩
             obtain ⟨rfl, rfl⟩ := snoc_inj he
-            have := (Stopped.ofBody hd).snoc_tok (isKey_notStart hk)
+            have := (Stopped.ofBody hd).snoc_tok (isKey_isItem hk)
             exact .inl (.inr ⟨ho, by simpa using this⟩)
           · intro _
             right
@@ -1557,7 +1608,7 @@ theorem stepKvs_g {st st' : St} {data d' : Bytes} (hG : GInv st) (hs : st.state 
               exact .inr ⟨ho, by simpa using this⟩
             · obtain ⟨done, k, he, hd, hk⟩ := hs'
               obtain ⟨rfl, rfl⟩ := snoc_inj he
-              have := (Stopped.ofBody hd).snoc_tok (isKey_notStart hk)
+              have := (Stopped.ofBody hd).snoc_tok (isKey_isItem hk)
               exact .inr ⟨ho, by simpa using this⟩
 
 theorem stepObjectValue_g {st st' : St} {data d' : Bytes} (hG : GInv st) (hs : st.state = .objectValue)
@@ -1575,7 +1626,7 @@ theorem stepObjectValue_g {st st' : St} {data d' : Bytes} (hG : GInv st) (hs : s
       obtain ⟨rfl, _⟩ := h
       refine G.step_body (s' := .parseOpen) (body' := body) hL (by simp [holeOf, htape]) hB hFl hMx ?_ ?_
         (fun hm => .inl hm) (by simp)
-      · rintro ⟨ho, hp⟩; exact .inr ⟨ho, hp⟩
+      · rintro ⟨ho, hp⟩; exact .inl (.inr ⟨ho, hp⟩)
       · rintro _ ⟨done, k, ops, rfl, hd, hk, hops⟩
         exact .inr ⟨done, k, ops, [], by simp, hd, hk, hops, .inl rfl⟩
     · split at h
@@ -1588,7 +1639,7 @@ theorem stepObjectValue_g {st st' : St} {data d' : Bytes} (hG : GInv st) (hs : s
           obtain ⟨htk, hts, hte, htm⟩ := scal_isKey ht
           refine G.step_body (s' := .key) (body' := body ++ [t]) hL (by simp [holeOf, htape]) hB hFl hMx ?_ ?_
             (fun hm => .inl hm) (fun _ => hmix)
-          · rintro ⟨ho, hp⟩; exact ⟨ho, hp.snoc_tok hts⟩
+          · rintro ⟨ho, hp⟩; exact ⟨ho, hp.snoc_tok (scal_isItem ht).1⟩
           · rintro _ ⟨done, k, ops, rfl, hd, hk, hops⟩
             right
             rcases ht with ⟨s, rfl⟩ | ⟨s, rfl⟩
@@ -1619,7 +1670,7 @@ theorem closeOf_eq {T R : List Tok} {p' : Nat} {o' : Bool} (hL : Lv T p' o')
 /-- closing the innermost container `c` (kind kept, `end` and flag written) -/
 theorem G.close {T pre body tape' : List Tok} {p' : Nat} {o' m : Bool} {c : Tok}
     (hL : Lv T p' o') (hP : Pend o' pre T.length)
-    (hF : T.getLast?.map Tok.flag = some true → Loose o' pre T.length)
+    (hF : T.getLast?.map Tok.flag = some true → LooseH o' pre T.length)
     (hc : c.isStartTok = true)
     (hbody : BLoose .arrayValue c.isObj body (T.length + pre.length + 1) ∨
       (c.isObj = true ∧ m = false ∧ Gr (.body false) body (T.length + pre.length + 1)))
@@ -1687,9 +1738,11 @@ theorem stepArrayOp_g {st st' : St} {data d' : Bytes} {onErr : Res} (hG : GInv s
               obtain ⟨rfl, rfl⟩ := snoc_inj hX
               refine ⟨xs ++ [.mixedContainer, l'], by simp, ?_⟩
               rcases hLo with ⟨ho, hi⟩ | ⟨ho, hs'⟩
-              · have := ((hi.items_unsnoc rfl xs l' rfl hl.2.1).items_snoc_tok (t := .mixedContainer) rfl).items_snoc_tok hl.1
+              · obtain ⟨h1, h2⟩ := hi.items_unsnoc' rfl xs l' rfl hl.2.1
+                have := (h1.items_snoc_tok (t := .mixedContainer) rfl).items_snoc_tok h2
                 exact .inl ⟨ho, by simpa using this⟩
-              · have := ((hs'.unsnoc hl.2.1 hl.2.2).snoc_tok (t := .mixedContainer) rfl).snoc_tok hl.1
+              · obtain ⟨h1, h2⟩ := hs'.unsnoc' hl.2.1 hl.2.2
+                have := (h1.snoc_tok (t := .mixedContainer) rfl).snoc_tok h2
                 exact .inr ⟨ho, by simpa using this⟩
           · simp at hpre
         · simp at hpre
@@ -1739,7 +1792,7 @@ theorem stepArrayValue_g {n : Nat} {st st' : St} {data d' : Bytes} (hG : GInv st
   obtain ⟨hT, _, _⟩ := hinv
   simp only [decide_false, reduceCtorEq] at hT
   -- pushing one token that is not a container start
-  have hpush : ∀ t : Tok, t.isStartTok = false → G (T0 ++ body ++ [t]) parent .arrayValue mixed := by
+  have hpush : ∀ t : Tok, t.isItem = true → G (T0 ++ body ++ [t]) parent .arrayValue mixed := by
     intro t ht
     have hLo2 : Loose o (body ++ [t]) T0.length := by
       rcases hLo with ⟨ho, hi⟩ | ⟨ho, hs'⟩
@@ -1753,7 +1806,7 @@ theorem stepArrayValue_g {n : Nat} {st st' : St} {data d' : Bytes} (hG : GInv st
     · -- `{`
       simp only [Step.cont.injEq] at h
       obtain ⟨rfl, _⟩ := h
-      exact ⟨T0, body, o, hL, by simp [holeOf], .inl hLo, fun _ => hLo, fun _ => hLo, by simp⟩
+      exact ⟨T0, body, o, hL, by simp [holeOf], .inl (.inl hLo), fun _ => .inl hLo, fun _ => .inl hLo, by simp⟩
     · split at h
       · -- `}`
         simp only at h
@@ -1792,7 +1845,7 @@ theorem stepArrayValue_g {n : Nat} {st st' : St} {data d' : Bytes} (hG : GInv st
             simp only [Step.cont.injEq] at h
             obtain ⟨rfl, _⟩ := h
             obtain ⟨t, rfl, ht⟩ := lexValue_tok' hlex
-            exact hpush t (scal_isKey ht).2.1
+            exact hpush t (scal_isItem ht).1
           · cases ‹Fail› <;> simp [Step.fail] at h
         · split at h
           · exact stepArrayOp_g hG0 rfl h
@@ -1800,14 +1853,14 @@ theorem stepArrayValue_g {n : Nat} {st st' : St} {data d' : Bytes} (hG : GInv st
             · next tape' rest' hlex =>
               simp only [Step.cont.injEq] at h
               obtain ⟨rfl, _⟩ := h
-              obtain ⟨t, rfl, _, ht⟩ := parseScalarTok_tok hlex
+              obtain ⟨t, rfl, ht⟩ := parseScalarTok_tok' hlex
               exact hpush t ht
             · cases ‹Fail› <;> simp [Step.fail] at h
 
 /-- entering a new container `c` (the placeholder, or a parameter block's object) -/
 theorem G.enter {T0 body body' tape' : List Tok} {o : Bool} {parent : Nat} {c : Tok} {s' : PState}
     {mixed' : Bool} (hL : Lv T0 parent o) (hP : Pend o body T0.length)
-    (hF : T0.getLast?.map Tok.flag = some true → Loose o body T0.length)
+    (hF : T0.getLast?.map Tok.flag = some true → LooseH o body T0.length)
     (hc : c.isStartTok = true) (he : endOf (some c) = parent) (hne : T0 ++ body ≠ [])
     (hflag : c.flag = false)
     (htape' : tape' = T0 ++ body ++ [c] ++ body' ++ holeOf s')
@@ -1879,6 +1932,9 @@ theorem G.final {tape : List Tok} {m : Bool} (h : G tape 0 .key m) : ∃ x, Gr (
 theorem paramTok_notStart (b : Bool) (sl : Slice) : (paramTok b sl).isStartTok = false := by
   cases b <;> rfl
 
+theorem paramTok_isItem (b : Bool) (sl : Slice) : (paramTok b sl).isItem = true := by
+  cases b <;> rfl
+
 theorem G.param_val {T0 body : List Tok} {o mixed : Bool} {parent : Nat} (hL : Lv T0 parent o)
     (hB : BLoose .key o body T0.length ∨ (o = true ∧ BStrict .key body T0.length))
     (hFl : T0.getLast?.map Tok.flag = some true → BLoose .key o body T0.length)
@@ -1888,7 +1944,7 @@ theorem G.param_val {T0 body : List Tok} {o mixed : Bool} {parent : Nat} (hL : L
   refine G.step_body (s' := .key) (body' := body ++ [pt, .unquoted s]) hL
     (by simp [holeOf]) hB hFl hMx ?_ ?_ (fun hm => .inl hm) (fun _ => hmix)
   · rintro ⟨ho, hs⟩
-    have := (hs.snoc_tok (isKey_notStart hpk)).snoc_tok (t := .unquoted s) rfl
+    have := (hs.snoc_tok (isKey_isItem hpk)).snoc_tok (t := .unquoted s) rfl
     exact ⟨ho, by simpa using this⟩
   · rintro _ ⟨done, lastf, rfl, hd, hl, _⟩
     exact .inr ⟨done ++ lastf, [pt] ++ [] ++ [.unquoted s], by simp, hd.fold hl,
@@ -1901,14 +1957,14 @@ theorem G.param_obj {T0 body : List Tok} {o mixed : Bool} {parent : Nat} (hL : L
     G (T0 ++ body ++ [pt] ++ [.object parent false, .unquoted s]) (T0 ++ body ++ [pt]).length .kvs mixed := by
   have hP : Pend o (body ++ [pt]) T0.length := by
     rcases hB with ⟨ho, hs⟩ | ⟨ho, done, lastf, rfl, hd, hl, _⟩
-    · exact .inl (.inr ⟨ho, hs.snoc_tok (isKey_notStart hpk)⟩)
+    · exact .inl (.inl (.inr ⟨ho, hs.snoc_tok (isKey_isItem hpk)⟩))
     · exact .inr ⟨ho, done ++ lastf, pt, [], [], by simp, hd.fold hl, hpk, .inl rfl, .inl rfl⟩
   have := G.enter (c := .object parent false) (body' := [.unquoted s]) (s' := .kvs) (mixed' := mixed)
     (tape' := T0 ++ body ++ [pt] ++ [.object parent false, .unquoted s]) hL hP
     (by
       intro hf
       obtain ⟨ho, hs⟩ := hFl hf
-      exact .inr ⟨ho, hs.snoc_tok (isKey_notStart hpk)⟩)
+      exact .inl (.inr ⟨ho, hs.snoc_tok (isKey_isItem hpk)⟩))
     rfl rfl (by simp) rfl (by simp [holeOf]) (.inr ⟨rfl, [], _, rfl, Gr.bnil, rfl⟩) hmix
   have hlen : (T0 ++ body ++ [pt]).length = T0.length + (body ++ [pt]).length := by simp <;> omega
   rw [hlen]; exact this
@@ -2059,7 +2115,7 @@ theorem stepParseOpen_g {st st' : St} {data d' : Bytes} (hG : GInv st) (hinv : S
               else T0 ++ body ++ [Tok.array 0 false] ++ [t]) = tape2 at h
             have hedit : ∃ T0', tape2 = T0' ++ body ++ [Tok.array 0 false, t] ∧
                 Lv T0' parent o ∧ T0'.length = T0.length ∧
-                (T0'.getLast?.map Tok.flag = some true → Loose o body T0.length) := by
+                (T0'.getLast?.map Tok.flag = some true → LooseH o body T0.length) := by
               rw [← htape2]
               have e : T0 ++ body ++ [Tok.array 0 false] ++ [t] = T0 ++ (body ++ [Tok.array 0 false, t]) := by simp
               rw [e]
@@ -2115,12 +2171,12 @@ theorem stepParseOpen_g {st st' : St} {data d' : Bytes} (hG : GInv st) (hinv : S
                     simp only [hlen2, hset2]
                     show G _ _ _ _
                     exact G.enter (c := .array parent false) (body' := [t]) (s' := .arrayValue) hL' hB hFl' rfl rfl
-                      hne' rfl (by simp [holeOf]) (.inl (.inl ⟨rfl, Gr.itok hts Gr.inil⟩)) rfl
+                      hne' rfl (by simp [holeOf]) (.inl (.inl ⟨rfl, Gr.itok (scal_isItem ht).1 Gr.inil⟩)) rfl
 
 /-- closing the innermost object from Key state (`}` / `]` / end of input with one open object) -/
 theorem G.close_key {T pre body : List Tok} {p' : Nat} {o' mixed : Bool} {c : Tok}
     (hL : Lv T p' o') (hP : Pend o' pre T.length)
-    (hF : T.getLast?.map Tok.flag = some true → Loose o' pre T.length)
+    (hF : T.getLast?.map Tok.flag = some true → LooseH o' pre T.length)
     (hc : c.isStartTok = true)
     (hB : BLoose .key c.isObj body (T ++ pre ++ [c]).length ∨
       (c.isObj = true ∧ BStrict .key body (T ++ pre ++ [c]).length))
@@ -2220,7 +2276,7 @@ theorem stepKey_g {st st' : St} {data d' : Bytes} (hG : GInv st) (hinv : StInv s
                 refine G.step_body (s' := .parseOpen) (body' := xs ++ [.header hd]) hL (by simp [holeOf])
                   hB hFl hMx ?_ ?_ (fun hm => .inl hm) (by simp)
                 · rintro ⟨ho, hs⟩
-                  exact .inr ⟨ho, (hs.unsnoc rfl (by simp)).snoc_tok rfl⟩
+                  exact .inr ⟨ho, xs, hd, rfl, hs.unsnoc rfl (by simp)⟩
                 · rintro _ ⟨done, lastf, he, hdn, hl, hl'⟩
                   right
                   rcases hl with rfl | ⟨k, ops, h', rfl, hk, hops⟩
@@ -2246,7 +2302,7 @@ theorem stepKey_g {st st' : St} {data d' : Bytes} (hG : GInv st) (hinv : StInv s
             refine G.step_body (s' := .kvs) (body' := body ++ [t]) hL (by simp [holeOf]) hB hFl hMx ?_ ?_
               (fun hm => .inl hm) (fun _ => hmix)
             · rintro ⟨ho, hs⟩
-              exact ⟨ho, body, t, rfl, hts, hs⟩
+              exact ⟨ho, body, t, rfl, (scal_isItem ht).1, hs⟩
             · rintro _ ⟨done, lastf, rfl, hd, hl, _⟩
               exact .inr ⟨done ++ lastf, t, rfl, hd.fold hl, htk⟩
           · cases ‹Fail› <;> simp [Step.fail] at h
